@@ -145,6 +145,86 @@ func vfC26GenEntries(r *vfRand) []vfC26Entry {
 	return es
 }
 
+// vfC26SafeMarshal runs the encoder under recover(): a panic inside ReposMap.MarshalBinary (e.g. binary.PutUvarint
+// indexing past a too small scratch buffer) is an observation, not the end of the harness.
+func vfC26SafeMarshal(m *ReposMap) (enc []byte, err error, pan string) {
+	defer func() {
+		if x := recover(); x != nil {
+			pan = fmt.Sprint(x)
+		}
+	}()
+	enc, err = m.MarshalBinary()
+	return
+}
+
+// vfC26ValueReplay: the VALUE given to the encoder, field by field (long names abbreviated to length + prefix).
+func vfC26ValueReplay(es []vfC26Entry, nilMap bool) map[string]any {
+	abbr := func(s string) any {
+		if len(s) <= 64 {
+			return s
+		}
+		return map[string]any{"len": len(s), "prefix": s[:16]}
+	}
+	var ents []map[string]any
+	for i, e := range es {
+		if i >= 40 {
+			break
+		}
+		var bs []map[string]any
+		for j, b := range e.E.Branches {
+			if j >= 8 {
+				break
+			}
+			bs = append(bs, map[string]any{"Name": abbr(b.Name), "Version": abbr(b.Version)})
+		}
+		ents = append(ents, map[string]any{"id": e.ID, "HasSymbols": e.E.HasSymbols, "IndexTimeUnix": e.E.IndexTimeUnix,
+			"IndexTimeUnix_as_uint64": fmt.Sprint(uint64(e.E.IndexTimeUnix)), "n_branches": len(e.E.Branches), "branches": bs})
+	}
+	return map[string]any{"codec": "ReposMap.MarshalBinary (reposMapEncode)", "nil_map": nilMap, "n_entries": len(es), "entries": ents}
+}
+
+// vfC26Directed: values that are ALWAYS part of the run (every tier, every seed): IndexTimeUnix at the sign and at the
+// varint-width boundaries (2^35 = first value that needs 6 varint bytes, negative = uint64 >= 2^63 = 10 bytes), repo ids at
+// the varint boundaries, branch names / branch counts / entry counts whose length crosses the 1- and 2-byte varint boundaries.
+func vfC26Directed() [][]vfC26Entry {
+	one := func(id uint32, it int64, bs []RepositoryBranch) []vfC26Entry {
+		return []vfC26Entry{{ID: id, E: MinimalRepoListEntry{HasSymbols: id%2 == 1, IndexTimeUnix: it, Branches: bs}}}
+	}
+	head := []RepositoryBranch{{Name: "HEAD", Version: "c301e5c8"}}
+	var out [][]vfC26Entry
+	for _, it := range []int64{-1, -62135596800 /* time.Time{}.Unix() */, math.MinInt64, 0, 1<<31 - 1, 1 << 31, 1 << 32, 1<<35 - 1, 1 << 35, 1<<35 + 1,
+		1<<42 - 1, 1 << 42, 1<<56 - 1, 1 << 56, 1<<62 + 12345, math.MaxInt64} {
+		out = append(out, one(7, it, head))
+	}
+	for _, id := range []uint32{0, 127, 128, 16383, 16384, 1 << 28, 1<<28 - 1, math.MaxUint32} {
+		out = append(out, one(id, 1700000000, head))
+	}
+	for _, l := range []int{127, 128, 16383, 16384} {
+		out = append(out, one(3, 1700000000, []RepositoryBranch{{Name: strings.Repeat("n", l), Version: "v"}, {Name: "b", Version: strings.Repeat("w", l)}}))
+	}
+	for _, nb := range []int{127, 128, 129} { // branch count of ONE entry crosses the 1-byte varint boundary
+		var bs []RepositoryBranch
+		for j := 0; j < nb; j++ {
+			bs = append(bs, RepositoryBranch{Name: fmt.Sprintf("b%d", j), Version: "v"})
+		}
+		out = append(out, one(5, -1, bs))
+	}
+	for _, ne := range []int{127, 128, 16383, 16384} { // entry count (and allBranchesLen) crosses the 1- and 2-byte varint boundaries
+		var es []vfC26Entry
+		for j := 0; j < ne; j++ {
+			es = append(es, vfC26Entry{ID: uint32(j) * 262147, E: MinimalRepoListEntry{HasSymbols: j%3 == 0, IndexTimeUnix: int64(j) << 20, Branches: []RepositoryBranch{{Name: "m", Version: ""}}}})
+		}
+		out = append(out, es)
+	}
+	// all the extreme IndexTimeUnix values in ONE map
+	var mix []vfC26Entry
+	for j, it := range []int64{math.MinInt64, -62135596800, -1, 0, 1 << 35, math.MaxInt64} {
+		mix = append(mix, vfC26Entry{ID: uint32(j) + 126, E: MinimalRepoListEntry{HasSymbols: j%2 == 0, IndexTimeUnix: it}})
+	}
+	out = append(out, mix)
+	return out
+}
+
 func vfC26ToMap(es []vfC26Entry) ReposMap {
 	m := ReposMap{}
 	for _, e := range es {
@@ -256,19 +336,50 @@ func TestVerifC26(t *testing.T) {
 	}
 	var ps []pending
 	// ---- (a) encoder side + round trip, (b) v1 encodings, (c) mutated, (d) hostile, (e) short exhaustive
-	for i := 0; i < n; i++ {
-		es := vfC26GenEntries(r)
+	directed := vfC26Directed()
+	encPanics := 0
+	for i := 0; i < len(directed)+n; i++ {
+		var es []vfC26Entry
+		v2class := "valid-v2"
+		if i < len(directed) {
+			es = directed[i]
+			v2class = "directed-v2"
+		} else {
+			es = vfC26GenEntries(r)
+		}
 		var m ReposMap
 		if len(es) > 0 || r.Chance(70) {
 			m = vfC26ToMap(es)
 		}
-		enc, err := (&m).MarshalBinary()
-		if err != nil {
-			vfOracleFail("reposmap:encode-error", "MarshalBinary returned an error", map[string]any{"value": fmt.Sprint(m), "err": err.Error()})
+		enc, err, pan := vfC26SafeMarshal(&m)
+		if pan != "" {
+			// the encoder must be total on ReposMap values: report the VALUE and carry on with the reference encoding
+			encPanics++
+			if encPanics <= 12 {
+				rp := vfC26ValueReplay(es, m == nil)
+				rp["panic"] = pan
+				vfOracleFail("reposmap:encode:panic", "ReposMap.MarshalBinary panics on a valid value: "+pan, rp)
+			}
+			enc = nil
+			if m != nil {
+				enc = vfC26RefEncode(2, es, -1, -1)
+			}
+			if len(enc) <= 2500 { // kind 21: "the encoder panicked on this value" — the model's checked encoder (generated capacity) must panic too
+				vfCase(cTuple(cN(21), "(@nil N)", "[]", cSome(vfC26ReposTerm(m))), fmt.Sprintf("21:%x", enc), true, []string{"reposmap/encode-panic"},
+					map[string]any{"codec": "reposmap", "value": vfC26ValueReplay(es, m == nil), "class": "encode-panic"})
+			}
+		} else if err != nil {
+			rp := vfC26ValueReplay(es, m == nil)
+			rp["err"] = err.Error()
+			vfOracleFail("reposmap:encode-error", "MarshalBinary returned an error", rp)
 			continue
 		}
 		mm := m
-		ps = append(ps, pending{kind: 11, in: enc, class: "valid-v2", expect: &mm})
+		if pan == "" {
+			ps = append(ps, pending{kind: 11, in: enc, class: v2class, expect: &mm})
+		} else { // the reference encoding of the same value must still decode to it
+			ps = append(ps, pending{kind: 1, in: enc, class: "ref-v2", expect: &mm})
+		}
 		if r.Chance(40) {
 			v1 := vfC26RefEncode(1, es, -1, -1)
 			exp := ReposMap{}
@@ -391,7 +502,7 @@ func TestVerifC26(t *testing.T) {
 		coq := cTuple(cN(uint64(p.kind)), cBytes(p.in), "[]", obs)
 		vfCase(coq, key, len(p.in) > 3, []string{"reposmap/" + p.class + "/" + rs.Class}, map[string]any{"codec": "reposmap", "input_hex": fmt.Sprintf("%x", p.in), "class": rs.Class})
 	}
-	vfInfo(map[string]any{"reposmap_classes": classes})
+	vfInfo(map[string]any{"reposmap_classes": classes, "reposmap_directed_values": len(directed), "reposmap_encode_panics": encPanics})
 }
 
 func vfC26PanicKind(msg string) string {
